@@ -1,10 +1,14 @@
 package props
 
 import (
+	"encoding/json"
+	"math/rand"
+	"strings"
 	"time"
 
 	"sidever/internal/concr"
 	"sidever/internal/ev"
+	"sidever/internal/tlc"
 )
 
 // C03: the real resolution result equals the specification's Resolve on every enumerated history.
@@ -20,10 +24,83 @@ func C03(c *ev.Ctx) {
 		e := mustEngine(run.Alpha, kt, hashes[i%len(hashes)])
 		compareWithSpec(c, e, run.Cases, "resolve-differs-from-spec", func(cs *ResCase) bool { return cs.Na >= 2 })
 	}
+	longRandomHistories(c, run.Alpha, mustEngine(run.Alpha, KeyTypeForSeed(c.Seed+1), concr.SHA256))
 	c.Cov.Exhaustive = true
-	c.Cov.Rule = "TLC enumerates every store of <= MaxOps anchored operations over the C03 alphabet (valid, forked, failing/invalid/mismatched delta, out-of-window, replayed, cyclic commitments; all four types) at every assignment of distinct coordinates; each distinct state is one case, replayed through the real OperationProcessor with real keys/JWS and compared field by field with the specification's Resolve. Non-trivial: the specification applies >= 2 operations."
+	c.Cov.Rule = "TLC enumerates every store of <= MaxOps anchored operations over the C03 alphabet (valid, forked, failing/invalid/mismatched delta, out-of-window, replayed, cyclic commitments; all four types) at every assignment of distinct coordinates; each distinct state is one case, replayed through the real OperationProcessor with real keys/JWS and compared field by field with the specification's Resolve. Non-trivial: the specification applies >= 2 operations. In addition (direction B) seeded random histories of 5-14 operations (published and unpublished, up to 30 coordinates) are resolved by the real processor and the recorded (store, view) pairs are validated by TLC against ResolveRef (MC_C03Trace)."
 	c.Assume = append(c.Assume, "concretiser self-checks passed (every well-formed shape parses in batch mode and reveals the intended key)",
 		"alpha: commitment strings map back to abstract key ids by table lookup; unknown strings map to -1 and never equal an expected value",
 		"TLC explored the configuration completely (exhaustive within the stated bounds)")
 	c.Finish("model_checking")
+}
+
+// longRandomHistories: direction B - histories longer than the exhaustive bound.
+func longRandomHistories(c *ev.Ctx, alpha []concr.Shape, e *Engine) {
+	n := 400
+	if c.Tier == "thorough" {
+		n = 20000
+	}
+	rng := rand.New(rand.NewSource(c.Seed*31 + 5))
+	var b strings.Builder
+	type rec struct {
+		Ops  []AnchOp `json:"ops"`
+		View View     `json:"view"`
+	}
+	var recs []rec
+	for i := 0; i < n; i++ {
+		k := 5 + rng.Intn(10)
+		used := map[[2]int]bool{}
+		var ops []AnchOp
+		// bias towards histories that go somewhere: start with the base create most of the time
+		if rng.Intn(10) > 0 {
+			ops = append(ops, AnchOp{S: 1, T: 1, N: 0, Pub: true})
+			used[[2]int{1, 0}] = true
+		}
+		for len(ops) < k {
+			t, nn := 1+rng.Intn(10), rng.Intn(3)
+			if used[[2]int{t, nn}] {
+				continue
+			}
+			used[[2]int{t, nn}] = true
+			ops = append(ops, AnchOp{S: 1 + rng.Intn(len(alpha)), T: t, N: nn, Pub: rng.Intn(6) > 0})
+		}
+		got, _, _ := e.Resolve(ops)
+		recs = append(recs, rec{ops, got})
+		j, _ := json.Marshal(rec{ops, got})
+		b.Write(j)
+		b.WriteByte('\n')
+	}
+	validate := func(nd string) (*tlc.Result, bool) {
+		r, err := tlc.Run(tlc.Opts{SpecDir: specDir(), Module: "MC_C03Trace", Config: "MC_C03Trace_" + c.Tier + ".cfg", WorkDir: c.Work, Workers: 1, Timeout: 30 * time.Minute,
+			ExtraFiles: map[string]string{"resolution_trace.ndjson": nd}})
+		if err != nil {
+			if r != nil && (strings.Contains(r.Output, "TraceAccepted") || strings.Contains(r.Output, "ostcondition")) {
+				return r, false
+			}
+			ev.Fatal("TLC resolution trace validation: %v", err)
+		}
+		return r, r.InvariantViolated == ""
+	}
+	res, ok := validate(b.String())
+	c.Cov.States += res.Distinct
+	c.Cov.Transitions += res.Generated
+	c.Cov.TracesValidatedAgainstImpl += int64(n)
+	c.Cov.Evaluations += int64(n)
+	c.Cov.Extra["long_random_histories"] = n
+	if !ok {
+		lines := strings.SplitAfter(b.String(), "\n")
+		lo, hi := 0, len(recs)-1
+		for lo < hi {
+			mid := (lo + hi) / 2
+			if _, ok := validate(strings.Join(lines[:mid+1], "")); ok {
+				lo = mid + 1
+			} else {
+				hi = mid
+			}
+		}
+		c.Violation("long-history-differs-from-spec", map[string]interface{}{"store": e.Describe(recs[lo].Ops), "observed": recs[lo].View,
+			"note": "the real resolution result of this history is not View(ResolveRef(store)); TLC rejected the trace at this event"})
+	}
+	if len(recs) > 0 {
+		c.AddSample(map[string]interface{}{"kind": "long random history", "ops": recs[0].Ops, "real": recs[0].View})
+	}
 }
